@@ -225,7 +225,17 @@ func (s *LogStore) triggerVerify(r VerificationReport) {
 
 // DeleteRange deletes a range of log entries. The range is inclusive.
 func (s *LogStore) DeleteRange(min uint64, max uint64) error {
-	return s.s.DeleteRange(min, max)
+	if err := s.s.DeleteRange(min, max); err != nil {
+		return err
+	}
+	// The running checksum may cover entries that were just removed (a tail
+	// truncation followed by re-appending different or even identical entries at
+	// the same indexes). Start over from the next entry written; the next
+	// checkpoint will then not claim a written sum for a range we only partly
+	// summed.
+	atomic.StoreUint64(&s.checksum, 0)
+	atomic.StoreUint64(&s.sumStartIdx, 0)
+	return nil
 }
 
 // Close cleans up the background verification routine and calls Close on the
